@@ -1,6 +1,6 @@
 SPECIFICATION Spec
 CONSTANTS
-  EffTokens = {"pa", "st", "im", "cb", "dm"}
+  EffTokens = {"pa", "st", "im", "cb", "dm", "rso"}
   MaxEff = 1
   Modes = {"normal", "closeOut", "exc", "excBrokenStr", "exit", "sysexit", "raiseSysExit", "recursion", "syntax", "nul", "blockedEval", "importPedal", "baseKbd", "baseCustom", "internalFault", "x:keyBare", "x:custominit", "reraise", "nested", "x:noSetattr", "x:noGetattr", "x:importRaises", "x:importExit", "baseImport", "x:group", "x:chained"}
   FnModes = {"normal", "closeOut", "exc", "excBrokenStr", "sysexit", "recursion", "blockedEval", "baseKbd", "baseCustom", "internalFault", "x:noSetattr", "x:importRaises", "x:fromImport"}
